@@ -30,6 +30,13 @@ finalised when is the implementation's choice; the trace supplies it and
 `collectOk` checks that it is allowed.  Identities (`ObjId`) are never reused;
 handle addresses may be.
 
+Destructor and free-function calls have an extent: `cdatagcp_finalize` empties the
+wrapper's slots and only then calls (`opRelease`, `opFinalize`), `cdatagcp_dealloc`
+calls after the wrapper is gone (`opCollect`); each call is an activation record (a
+`frame` object holding the references the C frame holds) that lasts until `ret`.
+Operations between the start of a call and its `ret` are issued from inside the
+callback — or by another thread while the first is blocked inside it.
+
 Ghost state (not present in the C code): `calls` (how often the destructor /
 free function of a wrapper has been called), `hadDtor`, `isAlloc`, `released`,
 `noned`.  The export count of a buffer (`ob_exports` of a bytearray) is not stored:
